@@ -169,6 +169,10 @@ def run(ch, ctx, fault=None):
         class OtherArgs(R.ArgsNamespace, render_cls=Other):
             x: int = 0
 
+        class Child(SimR):
+            """a strict subclass of the iterated renderable's class: its argument sets are
+            not compatible with the parent class (only the other way round)"""
+
         indefinite = ch.bool("indefinite", 0.3)
         n = None if indefinite else ch.int("n", 2, 6)
         stream_len = ch.int("stream", 0, 8) if indefinite else 0
@@ -320,7 +324,7 @@ def run(ch, ctx, fault=None):
                            "set_padding(%s) [terminal %dx%d]" % (pm2.describe(), term[0], term[1]),
                            "set_padding")
             elif op == "args":
-                kind = ch.pick("argkind", ("own", "own", "base", "other"))
+                kind = ch.pick("argkind", ("own", "own", "base", "other", "child"))
                 c2 = ch.pick("char2", "#@%")
                 sh2 = ch.pick("shift2", (0, 0, -1, -2, 1))
                 if kind == "own":
@@ -328,11 +332,13 @@ def run(ch, ctx, fault=None):
                 elif kind == "base":
                     a = R.RenderArgs(R.Renderable)
                     c2, sh2 = "#", 0
+                elif kind == "child":
+                    a = R.RenderArgs(Child, SimR.SimArgs(c2, sh2))
                 else:
                     a = R.RenderArgs(Other)
                 if model.closed:
                     expn = "FinalizedIteratorError"
-                elif kind == "other":
+                elif kind in ("other", "child"):
                     expn = "IncompatibleRenderArgsError"
                 else:
                     expn = None
